@@ -4,6 +4,7 @@ All definitions are those of `Model/C07.lean`, which the driver runs.
 -/
 import Mahotas.Proofs.C07
 import Mahotas.Proofs.C07Order
+import Mahotas.Proofs.C07Erode
 import Mathlib.Algebra.Order.Field.Basic
 import Mathlib.Algebra.Order.Field.Rat
 import Mathlib.Data.Rat.Cast.Order
@@ -241,6 +242,57 @@ theorem C07_mean_between_min_max (m : Mode) (f : Img Int) (fp : List (List Int))
   · rw [le_div_iff₀ hq]; exact_mod_cast hA
   · rw [div_le_iff₀ hq]; exact_mod_cast hB
 
+/-- **C07-R3' (rank 0 in `nearest` mode = flat grey erosion of C01).** For a signed, non-boolean dtype
+(`lo ≠ 0`, so that height 0 marks a member of a structuring element), an image whose samples at `p`
+lie in the dtype range, and a non-empty neighbourhood: `rank_filter(f, Bc, 0, mode='nearest')[p]` is the
+value the *specification* of C01 gives for the erosion of `f` by the flat structuring element with
+height 0 on the members of `Bc` (minimum over the members of `f[clamp(p + k)]`). For unsigned dtypes a
+0/1 `Bc` is not a flat element for `erode` (height 1 is subtracted), so the link does not apply. -/
+theorem C07_rank0_eq_flat_erosion (dt : DT) (hb : dt.isBool = false) (hlo : dt.lo ≠ 0) (f : Img Int)
+    (hs : ∀ d ∈ f.shape, 0 < d) (fp : List (List Int)) (hfp : fp ≠ []) (p : List Int)
+    (hrange : ∀ k ∈ fp, dt.lo ≤ f.getD (clampPos f.shape (addPos p k)) 0 ∧
+      f.getD (clampPos f.shape (addPos p k)) 0 ≤ dt.hi) :
+    rankAt .nearest f fp 0 p = some (C01.erodeSpecAt dt f (fp.map fun k => (k, 0)) p) := by
+  have hsamp := specSamples_nearest f fp p
+  have hne : specSamples .nearest f fp p ≠ [] := by
+    rw [hsamp]; simpa using hfp
+  obtain ⟨⟨lo, hlo1, hlo2, hlo3⟩, _⟩ := C07_rank_extremes .nearest f hs fp p hne
+  rw [hlo1]
+  congr 1
+  unfold C01.erodeSpecAt
+  have hfilt : (fp.map fun k => ((k, 0) : List Int × Int)).filter (C01.isMember dt) =
+      fp.map fun k => ((k, 0) : List Int × Int) := by
+    rw [List.filter_eq_self]
+    intro a ha
+    obtain ⟨k, _, rfl⟩ := List.mem_map.1 ha
+    simp [C01.isMember, hb, Ne.symm hlo]
+  rw [hfilt, List.foldl_map]
+  simp only [hb, Bool.false_eq_true, if_false, Int.sub_zero]
+  obtain ⟨h1, h2, h3⟩ := foldl_min_spec
+    (fun k => dt.clamp (f.getD (clampPos f.shape (addPos p k)) 0)) fp dt.hi
+  have hg : ∀ k ∈ fp, dt.clamp (f.getD (clampPos f.shape (addPos p k)) 0) =
+      f.getD (clampPos f.shape (addPos p k)) 0 := by
+    intro k hk
+    have := hrange k hk
+    unfold DT.clamp
+    omega
+  rw [hsamp] at hlo2 hlo3
+  obtain ⟨k0, hk0, hk0e⟩ := List.mem_map.1 hlo2
+  have hle : ∀ k ∈ fp, lo ≤ f.getD (clampPos f.shape (addPos p k)) 0 :=
+    fun k hk => hlo3 _ (List.mem_map.2 ⟨k, hk, rfl⟩)
+  have hv_le : fp.foldl (fun v k => min v (dt.clamp (f.getD (clampPos f.shape (addPos p k)) 0))) dt.hi ≤ lo := by
+    have := h1 k0 hk0
+    rw [hg k0 hk0, hk0e] at this
+    exact this
+  have hv_ge : lo ≤ fp.foldl (fun v k => min v (dt.clamp (f.getD (clampPos f.shape (addPos p k)) 0))) dt.hi := by
+    rcases h3 with h | ⟨k, hk, h⟩
+    · rw [h]
+      have := (hrange k0 hk0).2
+      rw [hk0e] at this
+      exact this
+    · rw [h, hg k hk]; exact hle k hk
+  omega
+
 /-- non-vacuity of round 2: the 3×3 cross has 5 members, `Bc.sum()//2 = 2`; on the 2×2 image in
     reflect mode every pixel has all 5 samples, ranks 0 / 2 / 4 are min / median / max of the
     samples, increasing, and the mean parts lie between; an even 2×2 neighbourhood gets rank 2 of 4. -/
@@ -266,3 +318,14 @@ example :
   have h4 : rankAt .reflect f fp ((fp.length : Int) - 1) [0, 0] = some 7 := by
     rw [C07_rank_eq_spec _ _ (by decide)]; decide
   exact_mod_cast (C07_mean_between_min_max .reflect f fp [0, 0] 1 7 h0 h4).2.2.2.1
+
+/-- the hypotheses of `C07_rank0_eq_flat_erosion` are met (int8, 3×3 cross, corner pixel): both sides are 1 -/
+example :
+    let dt : DT := { lo := -128, hi := 127 }
+    let f : Img Int := { shape := [2, 2], data := #[7, 1, 5, 3] }
+    let fp := footprint [3, 3] #[0, 1, 0, 1, 1, 1, 0, 1, 0]
+    dt.isBool = false ∧ dt.lo ≠ 0 ∧ (∀ d ∈ f.shape, 0 < d) ∧ fp ≠ [] ∧
+    (∀ k ∈ fp, dt.lo ≤ f.getD (clampPos f.shape (addPos [0, 0] k)) 0 ∧
+      f.getD (clampPos f.shape (addPos [0, 0] k)) 0 ≤ dt.hi) ∧
+    C01.erodeSpecAt dt f (fp.map fun k => (k, 0)) [0, 0] = 1 ∧ rankSpecAt .nearest f fp 0 [0, 0] = some 1 := by
+  decide
